@@ -99,3 +99,101 @@ pub proof fn lemma_match_is_method_independent(m1: Seq<char>, m2: Seq<char>, uri
     ensures static_match(m1, uri) == static_match(m2, uri),
 {
 }
+
+// ===== which file is read, and what is served for it (property C02) =====
+// the file Range::get_content_range_list reads for a target: served directory ++ path of the parsed target
+pub open spec fn target_file(uri: Seq<char>) -> Option<Seq<char>> {
+    let p = url_path_spec(request_url(uri));
+    if p.is_some() && has_prefix(p.unwrap(), slash()) && !has_sub(p.unwrap(), dotdot()) { Some(cwd() + p.unwrap()) } else { None }
+}
+// the single part that answers a request without a Range header for the regular file f: all of its bytes, its media type
+pub open spec fn whole_file_part(f: Seq<char>, p: ContentRange) -> bool {
+    p.range.start == 0 && p.body@ == file_content(f) && p.size@ == dec(file_content(f).len()) && p.unit@ == "bytes"@ && p.content_type@ == mime_of(f)
+}
+pub proof fn lemma_whole_slice(c: Seq<u8>, end: int)
+    requires end + 1 >= c.len(),
+    ensures file_slice(c, 0, end) == c,
+{
+    assert(file_slice(c, 0, end) =~= c);
+}
+
+// ASSUMED about the url-build-parse dependency (read off its source: no percent-decoding; the path ends at the first '?', or at
+// the first '#' when there is no '?'; conformance-tested in the thorough tier): a target that starts with '/' and holds neither
+// '?' nor '#' is its own path.  The static controller RE-PARSES "path ++ suffix" when it reads index.html / .html files.
+pub open spec fn plain_path(q: Seq<char>) -> bool { forall|i: int| 0 <= i < q.len() ==> #[trigger] q[i] != '?' && q[i] != '#' }
+#[verifier::external_body]
+pub proof fn axiom_url_plain_path(q: Seq<char>)
+    requires q.len() > 0, q[0] == '/', plain_path(q),
+    ensures url_path_spec(request_url(q)) == Some(q),
+{
+}
+// the file the documented lookup selects for the path p of the target (when lookup_selects(p))
+pub open spec fn selected(p: Seq<char>) -> Seq<char> {
+    let sf = cwd() + p;
+    if fs_is_dir(sf) { sf + dir_index(p) } else if fs_openable(sf) { sf } else { sf + s_dot_html() }
+}
+// a regular, readable file that is not itself a symbolic link
+pub open spec fn regular(f: Seq<char>) -> bool { fs_is_file(f) && fs_openable(f) && !fs_is_symlink(f) }
+pub open spec fn s_range() -> Seq<char> { seq!['R', 'a', 'n', 'g', 'e'] }
+// the served representation of a target when the request carries no Range header
+pub open spec fn serves_whole(uri: Seq<char>, parts: Seq<ContentRange>) -> bool {
+    let p = url_path_spec(request_url(uri)).unwrap();
+    parts.len() == 1 && whole_file_part(selected(p), parts[0])
+}
+// domain of the C02 statement for a target: it parses, lies under the root, is selected by the lookup, the selected file is a regular
+// file; the path holds no '#' (a '#' before the first '?' stays in the path and is cut off when the path is re-parsed) and does not end
+// in '.' (path ++ ".html" would then hold "..", which the containment guard refuses)
+pub open spec fn c02_domain(uri: Seq<char>) -> bool {
+    let po = url_path_spec(request_url(uri));
+    po.is_some() && has_prefix(po.unwrap(), slash()) && !has_sub(po.unwrap(), dotdot()) && plain_path(po.unwrap())
+        && po.unwrap().last() != '.'
+        && lookup_selects(po.unwrap()) && regular(selected(po.unwrap()))
+}
+
+pub proof fn lemma_no_dotdot_append(p: Seq<char>, suf: Seq<char>)
+    requires !has_sub(p, dotdot()), !has_sub(suf, dotdot()), p.len() == 0 || suf.len() == 0 || p.last() != '.' || suf[0] != '.',
+    ensures !has_sub(p + suf, dotdot()),
+{
+    let q = p + suf;
+    if has_sub(q, dotdot()) {
+        let k = choose|k: int| 0 <= k && k + 2 <= q.len() && #[trigger] q.subrange(k, k + 2) == dotdot();
+        assert(q.subrange(k, k + 2)[0] == '.' && q.subrange(k, k + 2)[1] == '.');
+        assert(q[k] == '.' && q[k + 1] == '.');
+        if k + 2 <= p.len() {
+            assert(p.subrange(k, k + 2) =~= dotdot());
+        } else if k >= p.len() {
+            assert(suf.subrange(k - p.len(), k - p.len() + 2) =~= dotdot());
+        } else {
+            assert(q[k] == p.last() && q[k + 1] == suf[0]);
+        }
+    }
+}
+// the file read when the controller asks for  path ++ suffix  (index.html / .html): served directory ++ path ++ suffix
+pub proof fn lemma_target_of_suffix(p: Seq<char>, suf: Seq<char>)
+    requires has_prefix(p, slash()), !has_sub(p, dotdot()), plain_path(p), plain_path(suf), !has_sub(suf, dotdot()),
+        suf.len() == 0 || p.last() != '.' || suf[0] != '.',
+    ensures target_file(p + suf) == Some(cwd() + p + suf),
+{
+    let q = p + suf;
+    assert(p.subrange(0, 1) == slash());
+    assert(p[0] == p.subrange(0, 1)[0]);
+    assert(q[0] == '/');
+    assert(plain_path(q)) by { assert forall|i: int| 0 <= i < q.len() implies #[trigger] q[i] != '?' && q[i] != '#' by { if i < p.len() { assert(q[i] == p[i]); } else { assert(q[i] == suf[i - p.len()]); } } }
+    axiom_url_plain_path(q);
+    lemma_no_dotdot_append(p, suf);
+    assert(q.subrange(0, 1) =~= slash());
+    assert(cwd() + q =~= cwd() + p + suf);
+}
+pub proof fn lemma_suffix_facts()
+    ensures
+        plain_path(s_index_html()), plain_path(s_slash_index_html()), plain_path(s_dot_html()),
+        !has_sub(s_index_html(), dotdot()), !has_sub(s_slash_index_html(), dotdot()), !has_sub(s_dot_html(), dotdot()),
+        s_index_html()[0] != '.', s_slash_index_html()[0] != '.',
+{
+    assert forall|k: int| 0 <= k && k + 2 <= s_index_html().len() implies #[trigger] s_index_html().subrange(k, k + 2) != dotdot() by {
+        let t = s_index_html().subrange(k, k + 2); assert(t[0] == s_index_html()[k] && t[1] == s_index_html()[k + 1]); }
+    assert forall|k: int| 0 <= k && k + 2 <= s_slash_index_html().len() implies #[trigger] s_slash_index_html().subrange(k, k + 2) != dotdot() by {
+        let t = s_slash_index_html().subrange(k, k + 2); assert(t[0] == s_slash_index_html()[k] && t[1] == s_slash_index_html()[k + 1]); }
+    assert forall|k: int| 0 <= k && k + 2 <= s_dot_html().len() implies #[trigger] s_dot_html().subrange(k, k + 2) != dotdot() by {
+        let t = s_dot_html().subrange(k, k + 2); assert(t[0] == s_dot_html()[k] && t[1] == s_dot_html()[k + 1]); }
+}
